@@ -85,6 +85,8 @@ def body_c12(tier, seed, rep, only_prop=False, scale=1):
             if r1 == r0:
                 r1 = r0 + 1.0
         c = rng.random() < 0.3
+        if rng.random() < 0.2:
+            c = int(c)                  # callers pass 0 / 1 (an option read from a file or a command line) as well as False / True
         s = LinearScale().domain([a, b]).range([r0, r1]).clamp(c)
         via = rng.choice(["call", "scale"])        # `s(x)` and `s.scale(x)` are the two public ways to apply a scale
         ev = s.scale if via == "scale" else s
@@ -96,10 +98,10 @@ def body_c12(tier, seed, rep, only_prop=False, scale=1):
                 xinv = s.invert(y)
             except Exception as e:
                 rep.prop_fail.append(("linear scale raised %s: %s" % (type(e).__name__, e), {"case": meta})); continue
-            lines.append("lin|%s|%s|%s|%s|%s|%s|%s|%s" % (fr(c), fr(a), fr(b), fr(r0), fr(r1), fr(x), fr(y), fr(xinv))); metas.append(meta)
+            lines.append("lin|%s|%s|%s|%s|%s|%s|%s|%s" % (fr(bool(c)), fr(a), fr(b), fr(r0), fr(r1), fr(x), fr(y), fr(xinv))); metas.append(meta)
         x1, x2 = sorted([rng.uniform(lo - (hi - lo), hi + (hi - lo)), rng.uniform(lo - (hi - lo), hi + (hi - lo))])
         if x1 < x2 and not c:
-            lines.append("linmono|%s|%s|%s|%s|%s|%s|%s|%s|%s" % (fr(c), fr(a), fr(b), fr(r0), fr(r1), fr(x1), fr(x2), fr(s(x1)), fr(s(x2))))
+            lines.append("linmono|%s|%s|%s|%s|%s|%s|%s|%s|%s" % (fr(bool(c)), fr(a), fr(b), fr(r0), fr(r1), fr(x1), fr(x2), fr(s(x1)), fr(s(x2))))
             metas.append({"kind": "linmono", "a": a, "b": b, "r0": r0, "r1": r1, "clamp": c, "x1": x1, "x2": x2})
     # histories over a scale and its copies
     for _ in range(common.count(tier, 2500, 30000) * scale):
@@ -179,7 +181,7 @@ def gen_history(rng):
             # "range!" / "domain!": the caller changes the list object it passed before in place and passes it again
             ops.append((rng.choice(["range", "range", "range!"]), i, r0, r0 + rng.choice([-1, 1]) * rng.choice([1.0, 100.0, 360.0, rng.uniform(0.5, 5000)])))
         elif c < 0.5:
-            ops.append(("clamp", i, rng.random() < 0.5))
+            ops.append(("clamp", i, rng.choice([True, False, True, False, 1, 0])))
         elif c < 0.66 and nobj > 1:
             # one scale is given the very list another scale's getter handed out (`b.domain(a.domain())`): values are taken, the list is not adopted
             ops.append(("domain-of", i, rng.randrange(nobj)))
@@ -217,7 +219,7 @@ def run_history(ops):
             a, b = lst[0], lst[1]
             s.domain(lst); enc.append("domain:%d:%s:%s" % (op[1], fr(a), fr(b)))
         elif op[0] == "clamp":
-            s.clamp(op[2]); enc.append("clamp:%d:%s" % (op[1], fr(op[2])))
+            s.clamp(op[2]); enc.append("clamp:%d:%s" % (op[1], fr(bool(op[2]))))
         elif op[0] == "nice":
             s.nice(op[2]) if op[2] is not None else s.nice()
             d = s.domain()     # stage-wise: the model is told what nice produced (C14 judges nice itself)
@@ -435,10 +437,10 @@ def replay_case(pid, replay):
     if k == "lin":
         s = LinearScale().domain([m["a"], m["b"]]).range([m["r0"], m["r1"]]).clamp(m["clamp"])
         y = s.scale(m["x"]) if m.get("via") == "scale" else s(m["x"])
-        line = "lin|%s|%s|%s|%s|%s|%s|%s|%s" % (fr(m["clamp"]), fr(m["a"]), fr(m["b"]), fr(m["r0"]), fr(m["r1"]), fr(m["x"]), fr(y), fr(s.invert(y)))
+        line = "lin|%s|%s|%s|%s|%s|%s|%s|%s" % (fr(bool(m["clamp"])), fr(m["a"]), fr(m["b"]), fr(m["r0"]), fr(m["r1"]), fr(m["x"]), fr(y), fr(s.invert(y)))
     elif k == "linmono":
         s = LinearScale().domain([m["a"], m["b"]]).range([m["r0"], m["r1"]]).clamp(m["clamp"])
-        line = "linmono|%s|%s|%s|%s|%s|%s|%s|%s|%s" % (fr(m["clamp"]), fr(m["a"]), fr(m["b"]), fr(m["r0"]), fr(m["r1"]), fr(m["x1"]), fr(m["x2"]), fr(s(m["x1"])), fr(s(m["x2"])))
+        line = "linmono|%s|%s|%s|%s|%s|%s|%s|%s|%s" % (fr(bool(m["clamp"])), fr(m["a"]), fr(m["b"]), fr(m["r0"]), fr(m["r1"]), fr(m["x1"]), fr(m["x2"]), fr(s(m["x1"])), fr(s(m["x2"])))
     elif k == "lhist":
         line = run_history([tuple(o) for o in m["ops"]])
     elif k == "lticks":
